@@ -52,7 +52,7 @@ func aliasH(line string) string {
 		}
 		ch <- "ok"
 	}()
-	deadline := time.After(5 * time.Second)
+	deadline := time.After(watchdog(5))
 	tick := time.NewTicker(50 * time.Millisecond)
 	defer tick.Stop()
 	for {
